@@ -62,3 +62,8 @@ Proof.
   intros V NE Hi Hb Hne G. destruct (valid_BR (set_nth i b c)) eqn:E; [|reflexivity].
   apply (br_single_digit_exact c i b V NE Hi Hb Hne) in E. lia.
 Qed.
+
+(* the exception is real: 00000047514000 and 20000047514000 are both accepted *)
+Lemma br_undetected_witness :
+  valid_BR (bs "00000047514000") = true /\ valid_BR (set_nth 0 "2"%byte (bs "00000047514000")) = true.
+Proof. vm_compute. split; reflexivity. Qed.
